@@ -597,3 +597,31 @@ Proof.
   destruct (truthy (cfg_has_imp_def_reset_vector cfg)); cbv iota; rewrite clear_low_bit; try reflexivity; apply word_lt256; [exact Wi|].
   eapply word_ExcVectorBase. eassumption.
 Qed.
+
+(* ---------- dispatch of raised exceptions by emulate_cycle ---------- *)
+From Gen Require Import exec conc decoders step.
+(* the protected block of emulate_cycle (fetch; decode; from_bitarray; execute; advance), taken from the regenerated term *)
+Definition cycle_body (cfg : config) : M machine unit :=
+  ltac:(let t := eval cbv beta delta [ArmV6_emulate_cycle] in (ArmV6_emulate_cycle cfg) in
+        lazymatch t with bind (catch ?b _ _) _ => exact b end).
+Definition dispatch (cfg : config) (o : outcome machine unit) : outcome machine unit :=
+  match o with
+  | Ok _ s' => Ok tt s'
+  | Exc e s' =>
+      match e with
+      | EEndOfInstruction => Ok tt s'
+      | ESVC => Registers_take_svc_exception cfg s'
+      | ESMC => Registers_take_smc_exception cfg s'
+      | EDataAbort _ _ => Registers_take_data_abort_exception cfg e s'
+      | EHypTrap => Registers_take_hyp_trap_exception cfg s'
+      | EUndefined => Registers_take_undef_instr_exception cfg s'
+      | _ => Exc e s'
+      end
+  end.
+Theorem emulate_cycle_dispatch cfg s : ArmV6_emulate_cycle cfg s = dispatch cfg (cycle_body cfg s).
+Proof.
+  unfold ArmV6_emulate_cycle. fold (cycle_body cfg). rewrite bind_ret_tt. unfold catch, dispatch.
+  destruct (cycle_body cfg s) as [[] s'|e s']; [reflexivity|].
+  destruct e; cbn [is_EndOfInstruction is_SVC is_SMC is_DataAbort is_HypTrap is_Undefined orb]; try reflexivity;
+    rewrite ?bind_ret_tt; reflexivity.
+Qed.
